@@ -1,0 +1,66 @@
+//go:build verif
+
+// Contracts for package entropy (kvc). Comment-only file.
+package entropy
+
+//@ -- NormalizeFrequencies: the postconditions are the clauses of property C16.
+//@ -- sum(a,lo,hi) is the spec function sum$ (lemmas L0/L1 in kvc, trusted);
+//@ -- sumold / oldat read the pre-state contents at indices evaluated now.
+//@ spec nfKeep(freqs []int) = forall j :: 0 <= j && j < 256 ==> (old(freqs[j]) > 0 ==> 1 <= freqs[j]) && (old(freqs[j]) == 0 ==> freqs[j] == 0)
+//@ spec nfAlpha(freqs []int, alphabet []int, n int) = forall k :: 0 <= k && k < n ==> 0 <= alphabet[k] && alphabet[k] < 256 && (k > 0 ==> alphabet[k-1] < alphabet[k])
+//@ spec nfSum(freqs []int, scale int, inc int, delta int) = (inc == 1 || inc == 0 - 1) && delta >= 0 && (inc == 1 ? sum(freqs, 0, 256) == scale - delta : sum(freqs, 0, 256) == scale + delta)
+//@ spec nfBound(freqs []int) = forall j :: 0 <= j && j < 256 ==> freqs[j] <= 1152921504606846976
+
+//@ func NormalizeFrequencies
+//@   mode int
+//@   props C16 C12
+//@   requires len(freqs) >= 256 && len(alphabet) == 256 && !samearray(freqs, alphabet)
+//@   requires forall j :: 0 <= j && j < 256 ==> 0 <= freqs[j] && freqs[j] <= 2147483648
+//@   requires totalFreq == sum(freqs, 0, 256) && 0 <= totalFreq && totalFreq <= 2147483648
+//@   assume forall q :: 0 <= q && q <= 256 ==> sum(freqs, q, 256) >= 0
+//@   ensures result1 == nil <==> 256 <= scale && scale <= 65536                                                      #errors
+//@   ensures result1 == nil && result0 > 0 ==> sum(freqs, 0, 256) == scale || (sum(freqs, 0, 256) > scale && (forall j :: 0 <= j && j < 256 ==> freqs[j] <= 1))      #sum
+//@   ensures forall j :: 0 <= j && j < 256 ==> (old(freqs[j]) > 0 ==> freqs[j] >= 1)                                #keep
+//@   ensures forall j :: 0 <= j && j < 256 ==> (old(freqs[j]) == 0 ==> freqs[j] == 0)                               #zero
+//@   ensures result1 == nil ==> 0 <= result0 && result0 <= 256 && (forall k :: 0 <= k && k < result0 ==> 0 <= alphabet[k] && alphabet[k] < 256 && (k > 0 ==> alphabet[k-1] < alphabet[k]))     #sorted
+//@   ensures result1 != nil ==> result0 == 0 && (forall j :: 0 <= j && j < 256 ==> freqs[j] == old(freqs[j]))       #error-changes-nothing
+//@   atreturn alphabetSize > 0 ==> sum(freqs, 0, 256) == scale || (sum(freqs, 0, 256) > scale && (forall j :: 0 <= j && j < 256 ==> freqs[j] <= 1))      #sum-at-return
+//@   atreturn nfKeep(freqs)      #keep-zero-at-return
+//@   atreturn 0 <= alphabetSize && alphabetSize <= 256 && nfAlpha(freqs, alphabet, alphabetSize)      #sorted-at-return
+//@   modifies freqs[*], alphabet[*]
+//@   loop 1 invariant 0 <= i && i <= 256 && 0 <= alphabetSize && alphabetSize <= i && (forall j :: 0 <= j && j < 256 ==> freqs[j] == old(freqs[j]))
+//@   loop 1 invariant forall k :: 0 <= k && k < alphabetSize ==> 0 <= alphabet[k] && alphabet[k] < i && (k > 0 ==> alphabet[k-1] < alphabet[k])
+//@   loop 1 modifies alphabet[*]
+//@   loop 1 decreases 256 - i
+//@   loop 2 invariant 0 - 1 <= rangeindex && rangeindex < 256 && 0 <= alphabetSize && alphabetSize <= rangeindex + 1 && 256 <= scale && scale <= 65536 && totalFreq != scale && totalFreq > 0 && 0 <= idxMax && idxMax < 256
+//@   loop 2 invariant forall j :: rangeindex + 1 <= j && j < 256 ==> freqs[j] == old(freqs[j])
+//@   loop 2 invariant forall j :: 0 <= j && j <= rangeindex ==> (old(freqs[j]) > 0 ==> 1 <= freqs[j] && freqs[j] <= 281474976710656) && (old(freqs[j]) == 0 ==> freqs[j] == 0)
+//@   loop 2 invariant sum(freqs, 0, 256) == sumScaledFreq + sumold(freqs, rangeindex + 1, 256) && sumFreq + sumold(freqs, rangeindex + 1, 256) == totalFreq && 0 <= sumFreq && 0 <= sumScaledFreq && sumScaledFreq <= 281474976710656 * (rangeindex + 1) && sumold(freqs, rangeindex + 1, 256) >= 0
+//@   loop 2 invariant forall k :: 0 <= k && k < alphabetSize ==> 0 <= alphabet[k] && alphabet[k] <= rangeindex && (k > 0 ==> alphabet[k-1] < alphabet[k])
+//@   loop 2 invariant (alphabetSize > 0 ==> idxMax <= rangeindex && oldat(freqs, idxMax) > 0 && freqs[idxMax] >= 1) && (alphabetSize == 0 ==> sumScaledFreq == 0 && idxMax == 0) && (alphabetSize == 1 ==> sumScaledFreq == freqs[alphabet[0]]) && (alphabetSize > 0 ==> 0 <= alphabet[alphabetSize-1] && alphabet[alphabetSize-1] <= rangeindex && oldat(freqs, alphabet[0]) > 0)
+//@   loop 2 modifies freqs[*], alphabet[*]
+//@   loop 2 exitinvariant nfKeep(freqs)
+//@   loop 2 exitinvariant 0 <= alphabetSize && alphabetSize <= 256 && nfAlpha(freqs, alphabet, alphabetSize)
+//@   loop 2 exitinvariant sum(freqs, 0, 256) == sumScaledFreq && 0 <= sumScaledFreq && sumScaledFreq <= 72057594037927936
+//@   loop 2 exitinvariant (alphabetSize > 0 ==> 0 <= idxMax && idxMax < 256 && freqs[idxMax] >= 1 && oldat(freqs, idxMax) > 0 && oldat(freqs, alphabet[0]) > 0) && (alphabetSize == 1 ==> sumScaledFreq == freqs[alphabet[0]])
+//@   loop 2 exitinvariant forall j :: 0 <= j && j < 256 ==> freqs[j] <= 281474976710656
+//@   loop 2 assume sumold(freqs, rangeindex + 2, 256) >= 0
+//@   loop 2 assume rangeindex + 1 < 256 ==> sumold(freqs, rangeindex + 1, 256) == oldat(freqs, rangeindex + 1) + sumold(freqs, rangeindex + 2, 256)
+//@   loop 2 decreases 256 - rangeindex
+//@   loop 3 invariant nfKeep(freqs) && nfAlpha(freqs, alphabet, alphabetSize) && nfSum(freqs, scale, inc, delta) && 2 <= alphabetSize && alphabetSize <= 256 && 0 <= idxMax && idxMax < 256 && freqs[idxMax] >= 1 && 1 <= round && round <= 6 && 256 <= scale && scale <= 65536
+//@   loop 3 assume nfBound(freqs) && delta <= 1152921504606846976
+//@   loop 3 modifies freqs[*]
+//@   loop 3 decreases 6 - round
+//@   loop 4 invariant nfKeep(freqs) && nfAlpha(freqs, alphabet, alphabetSize) && nfSum(freqs, scale, inc, delta) && delta >= 1 && 2 <= alphabetSize && alphabetSize <= 256 && 0 <= idxMax && idxMax < 256 && freqs[idxMax] >= 1 && 0 - 1 <= rangeindex && rangeindex < alphabetSize && 0 <= adjustments && adjustments <= rangeindex + 1 && 1 <= round && round <= 6 && 256 <= scale && scale <= 65536
+//@   loop 4 assume nfBound(freqs) && delta <= 1152921504606846976
+//@   loop 4 modifies freqs[*]
+//@   loop 4 decreases alphabetSize - rangeindex
+//@   loop 5 invariant nfKeep(freqs) && nfAlpha(freqs, alphabet, alphabetSize) && nfSum(freqs, scale, inc, delta) && inc == 0 - 1 && 2 <= alphabetSize && alphabetSize <= 256 && 256 <= scale && scale <= 65536
+//@   loop 5 assume nfBound(freqs) && delta <= 1152921504606846976
+//@   loop 5 modifies freqs[*]
+//@   loop 5 decreases delta
+//@   loop 6 invariant nfKeep(freqs) && nfAlpha(freqs, alphabet, alphabetSize) && nfSum(freqs, scale, inc, delta) && inc == 0 - 1 && delta >= 1 && 0 <= idx && idx <= 256 && 0 <= adjustments && adjustments <= idx && delta == loopentry(delta) - adjustments && 2 <= alphabetSize && alphabetSize <= 256 && 256 <= scale && scale <= 65536
+//@   loop 6 invariant adjustments == 0 ==> (forall j :: 0 <= j && j < idx ==> freqs[j] <= 1)
+//@   loop 6 assume nfBound(freqs) && delta <= 1152921504606846976
+//@   loop 6 modifies freqs[*]
+//@   loop 6 decreases 256 - idx
